@@ -79,7 +79,7 @@ cEdits == %s
     rnd = random.Random(seed() * 17 + 10)
     # longer random histories over the same alphabet (impl -> spec)
     alphabet = [{"op": "add_app", "n": n} for n in (4, 5, 9, 10, 16, 300)] + [{"op": "rm_app", "n": 0}, {"op": "rm_vc", "n": 0}, {"op": "rm_pad", "n": 0},
-               {"op": "fail", "n": 0}, {"op": "add_icon", "n": 40}, {"op": "add_pad", "n": 7}] + \
+               {"op": "fail", "n": 0}, {"op": "add_icon", "n": 40}, {"op": "add_pad", "n": 7}, {"op": "edit_si", "n": 1}, {"op": "edit_si", "n": 2}, {"op": "edit_si", "n": 7}] + \
                [{"op": "set_vc", "n": n} for n in range(8, 60)] + [{"op": "set_pad", "n": n} for n in (0, 1, 5, 30, 200)]
     for i in range(200 if t == "quick" else 3000):
         init = [["si", 34]] + rnd.choice([[], [["vc", 20]], [["vc", 33], ["app", 9]]]) + [["pad", rnd.choice([0, 1, 4, 7, 20, 100])] for _ in range(rnd.choice([0, 1, 1, 2]))]
